@@ -340,6 +340,24 @@ class Interp:
             else:
                 return False
             return True
+        if k == "unary_read":
+            # an element read used directly under a unary operator / as a condition
+            i = op["i"]
+            if a.t in ("li", "lg"):
+                em.code("print -%s[%s]" % (an, idx(i)))
+                if i < 0 or i >= n:
+                    raise Stop("index %d out of range (len %d)" % (i, n))
+                em.out(str(-a.data[i]))
+                return True
+            if a.t == "lb":
+                em.code("print !%s[%s]" % (an, idx(i)))
+                if i < 0 or i >= n:
+                    raise Stop("index %d out of range (len %d)" % (i, n))
+                em.out("false" if a.data[i] else "true")
+                em.code("if %s[%s] && true {\n\tprint \"y\"\n} else {\n\tprint \"n\"\n}" % (an, idx(i)))
+                em.out("y" if a.data[i] else "n")
+                return True
+            return False
         if k == "tmp_nest":
             # a temporary outer list that holds this list dies inside a helper; the inner list lives on
             if a.t != "li":
@@ -594,7 +612,7 @@ def gen_op(rng, it):
         kind = rng.weighted([("push", 6), ("remove", 4), ("read", 4), ("write", 4), ("opassign", 3), ("reverse", 2), ("join", 2),
                              ("clear", 1), ("clone", 2), ("alias", 3), ("map", 3), ("filter", 3), ("index_of", 3), ("len", 2),
                              ("eq", 2), ("concat", 2), ("bind", 2), ("push_fn", 1), ("new_from", 2), ("cap_call", 2), ("push_from", 1),
-                             ("tmp_nest", 2), ("filter_len", 2)])
+                             ("tmp_nest", 2), ("filter_len", 2), ("unary_read", 2)])
         op = {"op": kind, "a": a}
         if kind == "new_from":
             return {"op": kind, "a": a, "i": rng.below(8), "t": rng.choice(["li", "msi"]), "v": rng.choice(INTS), "k": rng.choice(SKEYS)}
@@ -628,7 +646,7 @@ def gen_op(rng, it):
                     op["v"] = 3
             if kind == "push_fn" and n == 0:
                 op["op"] = "push"
-        if kind in ("remove", "read", "write", "opassign", "concat", "bind"):
+        if kind in ("remove", "read", "write", "opassign", "concat", "bind", "unary_read"):
             op["i"] = pick_index(rng, n)
         if kind in ("eq", "join"):
             cands = [x for x in lists if it.vars[x].t == o.t and (kind == "eq" or it.vars[x] is not o)]
